@@ -412,8 +412,12 @@ fn caloric(out_dir: &str, full: bool, seed: u64) -> Vec<Value> {
             let mut g = String::new();
             g.push_str("From Coq Require Import Reals.\nFrom Interval Require Import Tactic.\nFrom FeosVerif Require Import CaloricC01.\nLocal Open Scope R_scope.\n");
             g.push_str(&format!("Definition T := {:e}.\nDefinition V := {:e}.\nDefinition n := {:e}.\nDefinition att := {:e}.\nDefinition atv := {:e}.\nDefinition avv := {:e}.\n", s.t, s.v, n, att, atv, avv));
+            // the Joule-Thomson coefficient -(V + T p_T/p_V)/(n c_p) cancels in a thin gas (both terms ~ V, the difference ~ B - T dB/dT): the
+            // f64 getter carries rounding noise ~ eps V/(n c_p), which the comparison allows on top of the relative 1e-10
+            let jt_scale = s.v / (n * api[1].1.abs());
             for (q, x) in api.iter() {
-                g.push_str(&format!("Goal Rabs ({} - ({:e})) <= 1e-10 * Rabs ({:e}).\nProof. unfold m_joule_thomson, m_isenthalpic_compressibility, m_isentropic_compressibility, m_grueneisen, m_thermal_expansivity, m_cp, m_cv, S_T, p_T, p_V, T, V, n, att, atv, avv. interval with (i_prec 100). Qed.\n", model(q), x, x));
+                let extra = if *q == "joule_thomson" { 1e-13 * jt_scale } else { 0.0 };
+                g.push_str(&format!("Goal Rabs ({} - ({:e})) <= 1e-10 * Rabs ({:e}) + {:e}.\nProof. unfold m_joule_thomson, m_isenthalpic_compressibility, m_isentropic_compressibility, m_grueneisen, m_thermal_expansivity, m_cp, m_cv, S_T, p_T, p_V, T, V, n, att, atv, avv. interval with (i_prec 100). Qed.\n", model(q), x, x, extra));
             }
             let name = format!("caloric_{}_{si}", c.name);
             std::fs::write(format!("{out_dir}/{name}.v"), g).unwrap();
@@ -448,7 +452,10 @@ fn caloric(out_dir: &str, full: bool, seed: u64) -> Vec<Value> {
                 ];
                 for ((q, x), (_, y)) in api.iter().zip(num.iter()) {
                     let rel = (x - y).abs() / x.abs().max(y.abs()).max(1e-300);
-                    if !(rel <= 2e-5) {
+                    // (central differences with h = 1e-4 are good to ~1e-8 relative per derivative; the cancellation in the Joule-Thomson
+                    // coefficient amplifies that by V/(n c_p)/|mu_JT|)
+                    let extra = if *q == "joule_thomson" { 1e-9 * jt_scale / x.abs().max(1e-300) } else { 0.0 };
+                    if !(rel <= 2e-5 + extra) {
                         fd.push(json!({"quantity": q, "reported": x, "from_numerical_partial_derivatives": y, "relative": rel}));
                     }
                 }
